@@ -77,7 +77,8 @@ Definition s_new (closes : bool) : sloc := {| s_pc := SStart; s_closes := closes
    2. one-step registries (each operation runs under the registry's single mutex) *)
 Inductive rop :=
 | RReg (id created : N)      (* Register(conn{ConnID = id, CreatedAt = created}); id 0 stands for the empty ConnID *)
-| RRem (id : N).             (* Remove(id) *)
+| RRem (id : N)              (* Remove(id) *)
+| RAuth (id client : N).     (* UpdateAuth(id, client, ...): binds the identity / moves the client index; an unknown id is an error *)
 Inductive rres := ROk | RRefused | REvicted (id : N) | RNoop.
 
 Definition keys (m : list (N * N)) : list N := map fst m.
@@ -92,6 +93,7 @@ Definition treg_apply (max : nat) (o : rop) (m : list (N * N)) : rres * list (N 
       else if at_cap max (length m) then (RRefused, m)
       else (ROk, (id, t) :: del m id)
   | RRem id => if has m id then (ROk, del m id) else (RNoop, m)
+  | RAuth id _ => if has m id then (ROk, m) else (RRefused, m)      (* the key set is untouched either way *)
   end.
 
 (* ClientRegistry.findOldestConnectionLocked: minimal CreatedAt (first minimal in list order; Go iterates a map,
@@ -120,7 +122,24 @@ Definition creg_apply (max : nat) (o : rop) (m : list (N * N)) : rres * list (N 
         end
       else (ROk, (id, t) :: m)
   | RRem id => if has m id then (ROk, del m id) else (RNoop, m)
+  | RAuth id _ => if has m id then (ROk, m) else (RRefused, m)      (* the key set is untouched either way *)
   end.
+
+(* ClientRegistry.removeConnectionLocked with the client index made explicit: the registry also keeps clientID -> connID.
+   A connection's identity (`ident`: connID -> the clientID it carries, 0 = unauthenticated) may be indexed under ANOTHER
+   connection (the same client authenticated on a second connection).  The code drops the index entry only if it points to
+   this connection and ALWAYS removes the connection from connMap.  `guarded` = the flattened variant whose early return
+   also skips the connMap delete (NOT the code; refuted). *)
+Record cregx := { x_map : list (N * N); x_ident : list (N * N); x_index : list (N * N) }.
+Definition lookup2 (l : list (N * N)) (k : N) : N :=
+  match find (fun e => N.eqb (fst e) k) l with Some e => snd e | None => 0%N end.
+Definition remove_conn (guarded : bool) (r : cregx) (id : N) : cregx :=
+  let cl := lookup2 (x_ident r) id in
+  let points_here := has (x_index r) cl && N.eqb (lookup2 (x_index r) cl) id in
+  if negb (N.eqb cl 0) && negb points_here && guarded then r                         (* early return: nothing removed *)
+  else {| x_map := del (x_map r) id;
+          x_ident := del (x_ident r) id;
+          x_index := if negb (N.eqb cl 0) && points_here then del (x_index r) cl else x_index r |}.
 
 (* a caller = a script of operations; one step = one operation under the lock *)
 Record rloc := { r_todo : list rop; r_log : list rres }.
